@@ -37,6 +37,7 @@ class Walker:
         self.kinds = {}                    # name -> set of kinds
         self.report = report               # callable(kind, node, name, why)
         self.call_args = []                # (call node, callee dotted text, [(param index / kw, state or None)])
+        self.moduli = []                   # (dim name, modulus expression text, node) for every manual normalisation
         self.uses = 0
 
     # ------------------------------------------------------------ helpers
@@ -99,6 +100,8 @@ class Walker:
                     ok = True
                 if ok:
                     self.state[name] = NORM
+                    mod_expr = b.value if isinstance(b, ast.AugAssign) else b.value
+                    self.moduli.append((name, norm(mod_expr), s))
                     return False
             self.expr(s.test)
             st0, k0 = dict(self.state), {k: set(v) for k, v in self.kinds.items()}
@@ -168,12 +171,14 @@ class Walker:
             name = t.id
             src = self.elementwise_normalising(v)
             if src is not None and (self.is_dim(src)):
+                self.moduli.append((src.id, norm(v), s))
                 self.expr(v.args[0].generators[0].iter if isinstance(v, ast.Call) else v.generators[0].iter)
                 self.state[name] = NORM
                 self.kinds[name] = {'tuple'}
                 return
             for dn in list(self.state):
                 if self.normalising_value(dn, v):
+                    self.moduli.append((dn, norm(v), s))
                     self.state[name] = NORM
                     self.kinds[name] = {'int'}
                     return
@@ -308,6 +313,9 @@ class Walker:
             for k in e.keywords:
                 args.append((k.arg, self.state.get(k.value.id) if isinstance(k.value, ast.Name) and k.value.id in self.state else None, k.value))
             self.call_args.append((e, d, args))
+            if isinstance(e.func, ast.Attribute) and e.func.attr == 'insert' and e.args and self.raw(e.args[0]):
+                self.uses += 1
+                self.report('list-insert', e, e.args[0].id, 'list.insert with a raw negative position inserts one place too early (insert(-1, x) puts x before the last element)')
             if d == 'range':
                 for a in e.args:
                     for n in ast.walk(a):
@@ -391,6 +399,19 @@ def check_axis(model, R, P, scope='all'):
         # kernels called by other kernels with literal non-negative axes stay RAW unless every site is NORM
         w, found = analyse(model, f, init)
         results[f.qualname] = (f, w, found)
+    # modulus of manual normalisations: ops whose NumPy sink counts the NEW axis (stack, expand_dims) need rank + 1, all others the rank
+    PLUS1 = {'stack', 'stack_forward', 'unsqueeze', 'unsqueeze_forward'}
+    for q, (f, w, found) in sorted(results.items()):
+        for name, mtext, node in w.moduli:
+            top = f
+            while top.parent is not None:
+                top = top.parent
+            need_plus1 = top.name in PLUS1
+            has_plus1 = '+ 1' in mtext or '1 +' in mtext
+            has_minus = '- 1' in mtext
+            ok = (has_plus1 == need_plus1) and not has_minus
+            R.ob(P + '.AXIS', q, 'modulus of the normalisation of %s: %s' % (name, mtext[:60]), ok,
+                 'a negative dim must be normalised with the rank of the array it indexes%s' % (' (the stacked / unsqueezed result has rank + 1)' if need_plus1 else ' (not rank +- 1)'), '%s:%d' % (f.mod.relpath, node.lineno))
     n = 0
     for q, (f, w, found) in sorted(results.items()):
         if scope == 'backward' and f.mod.modname == 'synapgrad.cpu_ops' and not (f.name.endswith('_backward') or f.name == 'unbroadcast'):
